@@ -290,17 +290,17 @@ def callNameGenBody (o : Oracles) (ctx : Ctx) (ev : Expr → M Val) (evArgs : Li
     | "next" =>
       (match more with
        | [] => do
-         let st ← gensM (fun acc => do
+         let st ← pep479 (gensM (fun acc => do
            let v ← eltM
-           liftE (consume .next acc v)) (emptyAcc .none)
+           liftE (consume .next acc v)) (emptyAcc .none))
          match st with
          | .done acc => pure acc.cur
          | .more _ => pyErr .stopIteration
        | [d] => do
          let dv ← ev d
-         let st ← gensM (fun acc => do
+         let st ← pep479 (gensM (fun acc => do
            let v ← eltM
-           liftE (consume .next acc v)) (emptyAcc .none)
+           liftE (consume .next acc v)) (emptyAcc .none))
          match st with
          | .done acc => pure acc.cur
          | .more _ => pure dv
